@@ -185,8 +185,45 @@ func runC11(c *Ctx) {
 					continue
 				}
 				k, ok := c.capAt(capBlock, v)
+				configured := false
+				if !ok {
+					// a limit that is configured (a field of the receiver, with a constant default) rather than a literal:
+					// still a test on the decoded value itself, against something the input does not influence
+					for _, fct := range c.FactsAt(capBlock) {
+						if fct.Val {
+							continue
+						}
+						m, isCap := Match(Op("binop", ">", Is(v), Bind("k")), fct.Cond)
+						if !isCap {
+							continue
+						}
+						lim := m["k"]
+						fromInput := false
+						for _, in2 := range inputs {
+							if lim.Contains(func(y *X) bool { return y == in2 }) {
+								fromInput = true
+							}
+						}
+						at, _ := lim.V.(ssa.Instruction)
+						okLeaves := !fromInput
+						for _, l := range c.Leaves(lim, at) {
+							ls := strip(l)
+							for ls != nil && ls.Op == "convert" && len(ls.Args) == 1 {
+								ls = strip(ls.Args[0])
+							}
+							if ls == nil || !(ls.Op == "const" || ls.Op == "field") {
+								okLeaves = false
+							}
+						}
+						if okLeaves {
+							configured = true
+						}
+					}
+				}
 				if ok {
 					c.OK("C11.M2-alloc-bounded", key+" › bound on decoded length", mk.Pos(), "allocation dominated by decoded length <= "+itoa(int(k))+", tested on the decoded value itself")
+				} else if configured {
+					c.OK("C11.M2-alloc-bounded", key+" › bound on decoded length", mk.Pos(), "allocation dominated by decoded length <= a configured limit (constant default), tested on the decoded value itself")
 				} else {
 					c.Bad("C11.M2-alloc-bounded", key+" › bound on decoded length", mk.Pos(), "buffer sized from a length prefix read from untrusted input without an upper-bound test on that value (a test on a derived sum can overflow): hostile metadata allocates arbitrarily or panics in makeslice")
 				}
